@@ -186,6 +186,9 @@ type XCase struct {
 
 const signMark = uint32(1) << 31
 
+// refuseMark: a SetIndex call that is expected to be refused (argument in the low 30 bits, 2^30 added back for 'beyond')
+const refuseMark = uint32(1) << 30
+
 // reachCase rebuilds the key and replays the case's history up to (not including) its final operation.
 func reachCase(c XCase) *xmss.XMSS {
 	k := c.Cfg.newLib()
@@ -232,9 +235,13 @@ func reachCase(c XCase) *xmss.XMSS {
 		k.SetIndex(c.Idx)
 	case "path":
 		for _, p := range c.Path {
-			if p&signMark != 0 {
+			switch {
+			case p&signMark != 0:
 				k.Sign(msgFor(c.Cfg, k.GetIndex(), c.Salt))
-			} else {
+			case p&refuseMark != 0:
+				arg := p &^ refuseMark
+				rt.Call(func() { k.SetIndex(arg) })
+			default:
 				k.SetIndex(p)
 			}
 		}
